@@ -119,9 +119,17 @@ def local_form_obs(em, D):
     return out
 
 
-def work_zoo(plan):
-    rec = {'plan': plan.name, 'case': 'zoo', 'obs': [], 'solver_s': 0.0, 'queries': 0}
-    ctx = Z.build(plan)
+def _other_model_half_built():
+    from sfc_models.models import Model, Country
+    from sfc_models.sector import Sector
+    m2 = Model(); c2 = Country(m2, 'ZZ', currency='ZED'); Sector(c2, 'S1'); Sector(c2, 'S2')
+
+
+def work_zoo(item):
+    plan, disturbed = item if isinstance(item, tuple) else (item, False)
+    rec = {'plan': plan.name + (':another-model-started-half-way' if disturbed else ''), 'case': 'zoo', 'obs': [], 'solver_s': 0.0, 'queries': 0}
+    # disturbed: another model is started and half built after half of this topology's declarations (coexisting models are documented)
+    ctx = Z.build(plan, interrupt=(max(1, len(plan.decls) // 2), _other_model_half_built)) if disturbed else Z.build(plan)
     em = emit(ctx)
     if not em.text:
         rec['build_error'] = repr(em.err)
@@ -314,7 +322,7 @@ from vf.props import c05
 kind, arg = %(kind)r, %(arg)r
 if kind == 'zoo':
     from vf.replaylib import get_plan
-    rec = c05.work_zoo(get_plan(arg))
+    rec = c05.work_zoo((get_plan(arg[0]), arg[1]) if isinstance(arg, (list, tuple)) else get_plan(arg))
 else:
     rec = c05.work_site(tuple(arg))
 bad = [ob for ob in rec['obs'] if ob['verdict'] == 'sat' and ob['kind'] == %(okind)r]
@@ -360,13 +368,14 @@ def run(tier, seed):
                 if ob['verdict'] == 'sat':
                     if kind == 'zoo':
                         key = 'zoo:%s:%s' % (rec['plan'], ob['kind'])
-                        rarg = arg.name
+                        rarg = [arg[0].name, arg[1]] if isinstance(arg, tuple) else arg.name
                     else:
                         key = 'site:%s:%s:%s' % (arg[0], arg[1], ob['kind'])
                         rarg = list(arg)
                     chk.violation(key, '%s: %s %s' % (rec['plan'], ob['what'], ob.get('detail')),
                                   REPLAY % dict(kind=kind, arg=rarg, okind=ob['kind']))
-    absorb(pmap(work_zoo, plans), 'zoo', plans)
+    zitems = [(p, False) for p in plans] + [(p, True) for p in plans]
+    absorb(pmap(work_zoo, zitems), 'zoo', zitems)
     absorb(pmap(work_site, cases), 'site', cases)
     chk.exhaustive = True
     return chk.finish()
